@@ -567,3 +567,174 @@ func c01NoArithmetic(c *Ctx, rule string, fns []*ssa.Function) {
 	}
 	c.R.Check(len(bad) == 0, rule, "match: numbers are only compared", "match/match.go", fmt.Sprintf("%d functions of the matcher: no arithmetic on floating-point values and no call into package math", n), strings.Join(bad, "; ")+": a pattern number then matches numbers other than itself (or fails to match itself)")
 }
+
+// c09HostMadeMessages: a message a coupling of cmd/mcrew builds itself and
+// hands to Service.Process is plain JSON data.  What it builds is followed
+// from the call's message argument: a map made on the way (and any map stored
+// into it) only holds values boxed from the Go types JSON decodes to.
+func c09HostMadeMessages(c *Ctx, rule string) {
+	process := c.P.Func("cmd/mcrew", "Service", "Process")
+	if process == nil {
+		c.R.Break(rule + ": cmd/mcrew Service.Process not found")
+		return
+	}
+	scope := c.P.FuncsIn("cmd/mcrew")
+	jsonShaped := func(t types.Type) (bool, string) {
+		s := types.TypeString(t, func(p *types.Package) string { return p.Name() })
+		switch s {
+		case "string", "float64", "bool", "map[string]interface{}", "[]interface{}", "map[string]any", "[]any":
+			return true, s
+		}
+		return false, s
+	}
+	n := 0
+	perFn := map[*ssa.Function]int{}
+	for _, f := range scope {
+		ssau.Instrs(f, func(in ssa.Instruction) {
+			ci, ok := in.(ssa.CallInstruction)
+			if !ok || ci.Common().StaticCallee() != process || len(ci.Common().Args) < 3 {
+				return
+			}
+			n++
+			perFn[f]++
+			var bad []string
+			made := 0
+			seen := map[ssa.Value]bool{}
+			var visit func(v ssa.Value, depth int)
+			visit = func(v ssa.Value, depth int) {
+				if depth > 4 {
+					return
+				}
+				for _, d := range deepDefs(v, scope) {
+					d = stripIface(d)
+					if seen[d] {
+						continue
+					}
+					seen[d] = true
+					// a local that is filled in place (decoded into, or assigned)
+					if ld, isLd := d.(*ssa.UnOp); isLd {
+						if al, isAl := ld.X.(*ssa.Alloc); isAl {
+							for _, r := range ssau.Referrers(al) {
+								if st, isSt := r.(*ssa.Store); isSt && st.Addr == ssa.Value(al) {
+									visit(st.Val, depth+1)
+								}
+							}
+						}
+					}
+					var stores []ssa.Value
+					switch d.(type) {
+					case *ssa.MakeMap, *ssa.MakeSlice:
+						made++
+					}
+					for _, r := range ssau.Referrers(d) {
+						switch x := r.(type) {
+						case *ssa.MapUpdate:
+							if x.Map == d {
+								stores = append(stores, x.Value)
+							}
+						}
+					}
+					if al, isAl := d.(*ssa.Alloc); isAl {
+						// an array behind a slice literal
+						for _, r := range ssau.Referrers(al) {
+							if ia, isIA := r.(*ssa.IndexAddr); isIA {
+								for _, r2 := range ssau.Referrers(ia) {
+									if st, isSt := r2.(*ssa.Store); isSt && st.Addr == ssa.Value(ia) {
+										stores = append(stores, st.Val)
+									}
+								}
+							}
+						}
+					}
+					for _, sv := range stores {
+						if mi, isMI := sv.(*ssa.MakeInterface); isMI {
+							if okT, ts := jsonShaped(mi.X.Type()); !okT {
+								bad = append(bad, fmt.Sprintf("a %s (%s)", ts, c.posv(mi)))
+								continue
+							}
+						}
+						visit(sv, depth+1)
+					}
+				}
+			}
+			visit(ci.Common().Args[len(ci.Common().Args)-2], 0)
+			if len(bad) > 2 {
+				bad = bad[:2]
+			}
+			c.R.Check(len(bad) == 0, rule, fmt.Sprintf("%s: message #%d handed to Service.Process", fname(f), perFn[f]), c.pos(in), fmt.Sprintf("what the coupling builds of it (%d containers) only holds values of the Go types JSON decodes to", made), "the message holds "+strings.Join(bad, ", ")+": not the Go type the same JSON decodes to, so a machine that binds it has a state that matches differently once it has been written out and read back")
+		})
+	}
+	if n < 3 {
+		c.R.Break(fmt.Sprintf("%s: expected the couplings of cmd/mcrew to call Service.Process, found %d call sites", rule, n))
+	}
+}
+
+// c15ReportNotTrimmed: what GetChanged has put in its report stays there.  An
+// entry leaves the report only as a duplicate (under the equality of its
+// serialised form with the last one reported), and no field of an entry is
+// cleared: a state or spec source withheld from the report is a change the
+// store never sees.
+func c15ReportNotTrimmed(c *Ctx, rule string) {
+	getC := c.P.Func("sio", "Crew", "GetChanged")
+	if getC == nil {
+		c.R.Break(rule + ": sio Crew.GetChanged not found")
+		return
+	}
+	var scope []*ssa.Function
+	for _, f := range append([]*ssa.Function{getC}, pkgClosure(getC)...) {
+		if prog.PkgOf(f) == "sio" {
+			scope = append(scope, f)
+		}
+	}
+	isReport := func(t types.Type) bool {
+		m, ok := t.Underlying().(*types.Map)
+		if !ok {
+			return false
+		}
+		p, isP := m.Elem().(*types.Pointer)
+		if !isP {
+			return false
+		}
+		n, isN := p.Elem().(*types.Named)
+		return isN && n.Obj().Name() == "Changed" && n.Obj().Pkg() != nil && n.Obj().Pkg().Path() == prog.Abs("sio")
+	}
+	nd, ns := 0, 0
+	for _, f := range scope {
+		ssau.Instrs(f, func(in ssa.Instruction) {
+			switch x := in.(type) {
+			case ssa.CallInstruction:
+				b, isB := x.Common().Value.(*ssa.Builtin)
+				if !isB || b.Name() != "delete" || !isReport(x.Common().Args[0].Type()) {
+					return
+				}
+				if _, is := ssau.LoadOfField(x.Common().Args[0], prog.Abs("sio"), "Crew", "changed"); is {
+					return // the cache being drained, not the report
+				}
+				nd++
+				dup := false
+				for _, ft := range flow.FactsAt(in.Block()) {
+					if bo, ok := ft.Cond.(*ssa.BinOp); ok && bo.Op.String() == "==" && ft.True {
+						if bt, isB := bo.X.Type().Underlying().(*types.Basic); isB && bt.Kind() == types.String {
+							dup = true
+						}
+					}
+				}
+				c.R.Check(dup, rule, fmt.Sprintf("%s: entry #%d taken out of the report", fname(f), nd), c.pos(in), "only under the equality of its serialised form with the last one reported", "an entry is taken out of the report without being a duplicate of what was last reported: that change never reaches the store")
+			case *ssa.Store:
+				fa, ok := x.Addr.(*ssa.FieldAddr)
+				if !ok {
+					return
+				}
+				for _, fld := range []string{"State", "SpecSrc"} {
+					if ssau.IsField(fa, prog.Abs("sio"), "Changed", fld) {
+						ns++
+						c.R.Check(!provablyNil(x.Val, x.Block()), rule, fmt.Sprintf("%s: Changed.%s assignment #%d", fname(f), fld, ns), c.pos(in), "a value is assigned, the field is not cleared", "Changed."+fld+" is cleared on the way to the report: that change never reaches the store")
+					}
+				}
+			}
+		})
+	}
+	if nd == 0 || ns < 2 {
+		c.R.Break(fmt.Sprintf("%s: expected GetChanged to fill State and SpecSrc and to drop duplicates, found %d assignments and %d deletions", rule, ns, nd))
+	}
+}
